@@ -158,6 +158,29 @@ def bound_modules_after_strike_change(ctx: Ctx) -> None:
                               "(the methods use different strikes)", {"greek": got[g].tolist(), "derivative_of_own_price": ad[g].tolist()})
 
 
+def bound_modules_without_arguments(ctx: Ctx) -> None:
+    """A module built from a simulated derivative with several paths: every Greek called WITHOUT arguments is, element by
+    element, the Greek at the derivative's simulated state (same shape and values as the call with that state given explicitly)."""
+    from checks.c07 import classes, make_derivative, state_of
+    from pfhedge.nn import BlackScholes
+    for p in classes():
+        for heston in (False, True):
+            d = make_derivative(p, True, 1.1, heston=heston)
+            m = BlackScholes(d)
+            st = {k: v for k, v in state_of(d).items() if k in m.inputs()}
+            for g in ("price", "delta", "gamma", "vega", "theta"):
+                try:
+                    bare = getattr(m, g)().detach()
+                    full = getattr(m, g)(**{k: v.clone() for k, v in st.items()}).detach()
+                except Exception as ex:
+                    ctx.violation(f"bound-module:{p}:{g}:raises", f"{type(m).__name__}.{g}() without arguments raised {type(ex).__name__}", {"error": repr(ex)[:200]})
+                    continue
+                ctx.count(n=1)
+                if bare.shape != full.shape or not bool((((bare - full).abs() <= 1e-12 * (1 + full.abs())) | (bare.isnan() & full.isnan())).all()):
+                    ctx.violation(f"bound-module:{p}:{g}:no-arguments", f"{type(m).__name__}.{g}() without arguments is not the {g} at the derivative's simulated state (one value per path and step)",
+                                  {"shape_without_arguments": list(bare.shape), "shape_with_state": list(full.shape), "underlier": type(d.ul()).__name__})
+
+
 def closed_forms(ctx: Ctx) -> Dict[str, int]:
     """Every closed-form Greek (functional forms and modules) against the derivative of the same product's own price on the
     lattice of BSAlgebra.tla: which Greek is which derivative (variable, order, sign) comes from the specification, the
@@ -230,6 +253,7 @@ def check(ctx: Ctx) -> None:
     from lib.bsgrid import Grid
     bs_common.batch_consistency(ctx, Grid("quick"), greeks=("delta", "gamma", "vega", "theta"))
     bound_modules_after_strike_change(ctx)
+    bound_modules_without_arguments(ctx)
     torch.set_default_dtype(torch.float32)
     res = ctx.tlc("MC_AutoGreek", "MC_AutoGreek.cfg", workers=8)
     require_actions(res, ["ParseLeaf", "Rederive", "Filter", "Differentiate"])
